@@ -208,6 +208,12 @@ def gen_orders(rng, quick):
         for op in script:
             if op[0] == "xfer":
                 op = ["xfer", _xfer(rng, chans, op[1], l2, 3000)]
+            elif op[0] == "early":
+                # two small writes per link by the side whose peer has no sink yet
+                x = {str(i): [[], []] for i in op[1]}
+                for i in op[1]:
+                    x[str(i)][op[2]] = [[0, rng.randint(3, 12)], [0.05, rng.randint(1, 5)]]
+                op = ["xfer", x]
             elif op[0] == "refused":
                 free = [c for c in range(1, 31) if c not in chs]
                 op = ["refused", rng.choice(free)]
@@ -230,6 +236,14 @@ def gen_orders(rng, quick):
     # both ends close the same link at the same time; two links closed at once
     mk(1, [["open", 0], ["xfer", [0]], ["close", [[0, 0], [0, 1]]]], "simultaneous-close")
     mk(2, [["open", 0], ["open", 1], ["xfer", [0, 1]], ["close", [[0, 0], [1, 1]]]], "simultaneous-close")
+    # applications that install their sinks late: early data of each link waits for that link's own sink, whatever the
+    # order in which the sinks are attached
+    for late in (0, 1):
+        for n, order in ((2, (1, 0)), (2, (0, 1)), (3, (2, 0, 1))):
+            script = [["open", i] for i in range(n)] + [["early", list(range(n)), 1 - late]] + [["attach", [[i, late]]] for i in order] \
+                     + [["xfer", list(range(n))]] + [["close", [[i, late]]] for i in range(n)]
+            mk(n, script, "late-sink")
+            out[-1]["late_sink"] = late
     # the session itself
     for side in (0, 1):
         mk(2, [["open", 0], ["open", 1], ["xfer", [0, 1]], ["close", [[0, side]]], ["close", [[1, 1 - side]]], ["mux_close", side]], "session")
